@@ -116,6 +116,13 @@ fn run_op(hs: &mut Vec<H>, base: Option<&Bytes>, base_expect: &[u8], op: u8) {
         4 => {
             hs.pop();
         }
+        6 if matches!(hs.last(), Some(H::M(..))) => {
+            if let Some(H::M(m, e)) = hs.pop() {
+                let mut v = Vec::from(m);
+                check(&v, &e, "Vec::from(BytesMut)");
+                v.iter_mut().for_each(|x| *x ^= 0xFF);
+            }
+        }
         5 | 6 | 7 => {
             if !matches!(hs.last(), Some(H::B(..))) {
                 return;
